@@ -1,6 +1,6 @@
 (* C07 Shipped lattice morphisms distribute over merge.
-   Covered: CartesianProductBimorphism, KeyedBimorphism (parametric in the wrapped bimorphism,
-   hence every tower Keyed<..Keyed<Cartesian>..>), PairBimorphism.
+   Covered: CartesianProductBimorphism, PairBimorphism, KeyedBimorphism (parametric in ANY wrapped
+   bimorphism, hence every nesting of Keyed over Cartesian / Pair).
    GHT bimorphisms (lattices/src/ght/lattice.rs), on e2-coll's trie model: GhtCartesianProduct and
    GhtValTypeProduct full; DeepJoin / GhtNodeKeyed towers up to the set of rows (_rows_partial).
    Full statement, for a bimorphism f and all well-formed a, da, b, db:
@@ -9,8 +9,9 @@
 From HV Require Import Coll.ModelGHT Coll.PGHT Lattice.MorphGHT Lattice.PMorphGHT.
 From HV Require Import Lattice.Univ Lattice.Morph Lattice.PMorph.
 
-(* every shape Cartesian | Keyed^n(Cartesian) | Pair(ta, tb): distributes in each argument
-   separately, maps well-formed to well-formed, respects the lattices' equalities *)
+(* EVERY shape  Cartesian | Pair(ta, tb) | Keyed(shape)  -- PairBimorphism under any number of
+   KeyedBimorphisms included ([shape_ok] only asks C01's side condition of the Pair's lattices):
+   distributes in each argument separately, maps well-formed to well-formed *)
 Theorem C07_distributes : forall s, shape_ok s = true ->
   forall (a da : val (ty_a s)) (b db : val (ty_b s)),
     W (ops (ty_a s)) a -> W (ops (ty_a s)) da -> W (ops (ty_b s)) b -> W (ops (ty_b s)) db ->
@@ -33,23 +34,25 @@ Theorem C07_respects_eq : forall s, shape_ok s = true ->
 Proof. intros s OK. exact (bm_cong (shape_bimorph s OK)). Qed.
 Print Assumptions C07_respects_eq.
 
-(* KeyedBimorphism is parametric: over ANY three value lattices and ANY wrapped f that is a
-   bottom-preserving bimorphism, [keyed f] is again a bottom-preserving bimorphism *)
+(* KeyedBimorphism is parametric: over ANY three value lattices and ANY wrapped bimorphism f (no
+   bottom-preservation hypothesis: the loop skips bottom-valued entries itself), [keyed f] is a
+   bimorphism, and it maps bottom in either argument to bottom *)
 Theorem C07_keyed_parametric :
   forall (VA VB VO : Type) (LA : LatOps VA) (LB : LatOps VB) (LO : LatOps VO),
     LatLaws LA -> LatLaws LB -> LatLaws LO ->
-    forall f : VA -> VB -> VO, Bimorph LA LB LO f -> Strict LA LB LO f ->
-      Bimorph (map_ops LA) (map_ops LB) (map_ops LO) (keyed f) /\
-      Strict (map_ops LA) (map_ops LB) (map_ops LO) (keyed f).
+    forall f : VA -> VB -> VO, Bimorph LA LB LO f ->
+      Bimorph (map_ops LA) (map_ops LB) (map_ops LO) (keyed LA LB f) /\
+      Strict (map_ops LA) (map_ops LB) (map_ops LO) (keyed LA LB f).
 Proof. exact keyed_bimorph. Qed.
 Print Assumptions C07_keyed_parametric.
 
-(* the induction on nesting depth *)
-Theorem C07_keyed_towers : forall s, nopair s = true ->
+(* the induction on nesting depth: the bimorphism record for every shape, and bottom-preservation
+   of every KeyedBimorphism whatever it wraps *)
+Theorem C07_all_shapes : forall s, shape_ok s = true ->
   Bimorph (ops (ty_a s)) (ops (ty_b s)) (ops (ty_o s)) (bapply s) /\
-  Strict (ops (ty_a s)) (ops (ty_b s)) (ops (ty_o s)) (bapply s).
-Proof. exact shape_strict. Qed.
-Print Assumptions C07_keyed_towers.
+  Strict (ops (ty_a (BKeyed s))) (ops (ty_b (BKeyed s))) (ops (ty_o (BKeyed s))) (bapply (BKeyed s)).
+Proof. intros s OK. exact (conj (shape_bimorph s OK) (keyed_shape_strict s OK)). Qed.
+Print Assumptions C07_all_shapes.
 
 (* the cartesian product really is the set of all pairs: the N-encoding of pairs is injective *)
 Theorem C07_cartesian_is_product : forall a b x y,
@@ -57,44 +60,23 @@ Theorem C07_cartesian_is_product : forall a b x y,
 Proof. exact cart_pairs. Qed.
 Print Assumptions C07_cartesian_is_product.
 
-(* FINDING: the side condition of the parametric theorem is needed.  PairBimorphism does not
-   preserve bottom (pair(bottom, b) is not bottom), and KeyedBimorphism<_, PairBimorphism> -- a
-   composition the public API allows -- does not distribute over merge.  Witness (replayed on
-   the real crate): a = {}, da = {0: {}}, b = {0: {1}}. *)
-Theorem C07_keyed_pair_refuted :
+(* FORMER FINDING keyed/inner-not-bottom-preserving, fixed in /repo by commit 77f6722ffe1
+   "fix: KeyedBimorphism skips bottom-valued entries" (model updated accordingly; the old loop is
+   Morph.keyed_old, its failure PMorph.keyed_old_pair_witness).  The former theorem was
+     C07_keyed_pair_refuted : let s := BKeyed (BPair TSet TSet) in exists a da b, W a /\ W da /\ W b /\
+        ~ E (bapply s (m a da) b) (m (bapply s a b) (bapply s da b))
+   with witness a = {}, da = {0: {}}, b = {0: {1}}: PairBimorphism maps (bottom, b) to a non-bottom
+   Pair, MapUnion::merge skips the bottom-valued delta entry on the input side but kept its image on
+   the output side.  The same input is the first case of corpus/C07/seed_cases.json, re-checked
+   first on every run; on the fixed code and model both sides are the empty map: *)
+Example C07_former_witness :
   let s := BKeyed (BPair TSet TSet) in
-  exists (a da : val (ty_a s)) (b : val (ty_b s)),
-    W (ops (ty_a s)) a /\ W (ops (ty_a s)) da /\ W (ops (ty_b s)) b /\
-    ~ E (ops (ty_o s)) (bapply s (m (ops (ty_a s)) a da) b)
-                       (m (ops (ty_o s)) (bapply s a b) (bapply s da b)).
-Proof. exact keyed_pair_refuted. Qed.
-Print Assumptions C07_keyed_pair_refuted.
-
-(* PROPOSED REPAIR (fixes/C07_keyed_skip_bottom.diff; not the code in /repo): KeyedBimorphism that
-   skips entries whose value is bottom on either side.  It is a (bottom-preserving) bimorphism for
-   ANY wrapped bimorphism f -- no bottom-preservation hypothesis on f -- ... *)
-Theorem C07_keyed_fixed_parametric :
-  forall (VA VB VO : Type) (LA : LatOps VA) (LB : LatOps VB) (LO : LatOps VO),
-    LatLaws LA -> LatLaws LB -> LatLaws LO ->
-    forall f : VA -> VB -> VO, Bimorph LA LB LO f ->
-      Bimorph (map_ops LA) (map_ops LB) (map_ops LO) (keyed_fixed LA LB f) /\
-      Strict (map_ops LA) (map_ops LB) (map_ops LO) (keyed_fixed LA LB f).
-Proof. exact keyed_fixed_bimorph. Qed.
-Print Assumptions C07_keyed_fixed_parametric.
-
-(* ... so with the repair every shape, PairBimorphism under KeyedBimorphisms included, distributes *)
-Theorem C07_fixed_all_shapes : forall s, types_ok s = true ->
-  forall (a da : val (ty_a s)) (b db : val (ty_b s)),
-    W (ops (ty_a s)) a -> W (ops (ty_a s)) da -> W (ops (ty_b s)) b -> W (ops (ty_b s)) db ->
-    E (ops (ty_o s)) (bapply_fixed s (m (ops (ty_a s)) a da) b)
-                     (m (ops (ty_o s)) (bapply_fixed s a b) (bapply_fixed s da b)) /\
-    E (ops (ty_o s)) (bapply_fixed s a (m (ops (ty_b s)) b db))
-                     (m (ops (ty_o s)) (bapply_fixed s a b) (bapply_fixed s a db)).
-Proof.
-  intros s OK a da b db Wa Wda Wb Wdb. pose proof (shape_fixed_bimorph s OK) as BM.
-  exact (conj (bm_l BM Wa Wda Wb) (bm_r BM Wa Wb Wdb)).
-Qed.
-Print Assumptions C07_fixed_all_shapes.
+  let a : val (ty_a s) := [] in let da : val (ty_a s) := [(0, [])]%N in
+  let b : val (ty_b s) := [(0, [1])]%N in
+  shape_ok s = true /\
+  bapply s (m (ops (ty_a s)) a da) b = [] /\
+  m (ops (ty_o s)) (bapply s a b) (bapply s da b) = [].
+Proof. repeat split. Qed.
 
 (* ---------------------------------------------------------------- GHT bimorphisms
    Model and row-level specifications are e2-coll's (Coll/ModelGHT.v, Coll/PGHT.v; [PGHT.wf h d t]:
@@ -184,5 +166,6 @@ Example C07_nonvacuous :
   shape_ok s = true /\ W (ops (ty_a s)) a /\ W (ops (ty_a s)) da /\ W (ops (ty_b s)) b /\
   bapply s (m (ops (ty_a s)) a da) b
     = [(1, [(5, [penc 2 9; penc 3 9]); (6, [penc 4 8])]); (3, [(5, [penc 6 1])])]%N /\
-  shape_ok (BPair (TMap TSet) (TBot (TMax SU8))) = true.
+  shape_ok (BPair (TMap TSet) (TBot (TMax SU8))) = true /\
+  shape_ok (BKeyed (BKeyed (BPair TSet (TMax SU8)))) = true.
 Proof. repeat split. Qed.
